@@ -118,7 +118,10 @@ type Script struct {
 	Ops     []Op `json:"ops"`
 }
 
-var strDom = []string{"u", "v", "w", "x"}
+// strDom[0] is the zero value of the field type on purpose: a staged delete is recorded with
+// the zero value of V, so an index must not confuse "deleted" with "set to the zero value".
+// (The SortedIndex domain 0..SDom-1 contains its zero value 0 as well.)
+var strDom = []string{"", "u", "v", "w"}
 
 const outsideVal = "z"
 
@@ -147,6 +150,21 @@ func genRow(t *rapid.T, sc *Script) Row {
 		S:  int64(rapid.IntRange(0, sc.SDom-1).Draw(t, "s")),
 		P:  int64(rapid.IntRange(0, 3).Draw(t, "p")),
 	}
+}
+
+// zeroed returns r with some (at least one) indexed field set to the zero value of its type.
+func zeroed(t *rapid.T, r Row) Row {
+	m := rapid.IntRange(1, 7).Draw(t, "zeromask")
+	if m&1 != 0 {
+		r.A = ""
+	}
+	if m&2 != 0 {
+		r.B = ""
+	}
+	if m&4 != 0 {
+		r.S = 0
+	}
+	return r
 }
 
 func genStrVals(t *rapid.T, sc *Script) []string {
@@ -261,6 +279,7 @@ func genScriptWith(t *rapid.T, dup bool) Script {
 		sc.FailPopulate = rapid.IntRange(0, 11).Draw(t, "failpop") == 0
 	}
 	g := &genState{}
+	known := append([]Row(nil), sc.Pre...) // rows written so far (any handle), for "same value as before"
 	nops := rapid.IntRange(3, 28).Draw(t, "nops")
 	handle := func(writer bool) int {
 		o := g.openSlots()
@@ -306,20 +325,61 @@ func genScriptWith(t *rapid.T, dup bool) Script {
 			for i, n := 0, rapid.SampledFrom([]int{1, 1, 2, 3}).Draw(t, "nrows"); i < n; i++ {
 				op.Rows = append(op.Rows, genRow(t, &sc))
 			}
+			known = append(known, op.Rows...)
 			sc.Ops = append(sc.Ops, op)
-		case w < 38: // set-delete-set on one key inside one handle
+		case w < 41: // delete -> re-create of one key inside one handle (optionally set -> delete -> set)
 			h := handle(true)
-			r1, r2 := genRow(t, &sc), genRow(t, &sc)
+			if o := g.openSlots(); h == 0 && len(o) > 0 && rapid.IntRange(0, 3).Draw(t, "forcetx") != 0 {
+				h = o[rapid.IntRange(0, len(o)-1).Draw(t, "slot")] // mostly inside a real transaction
+				g.dirty[h] = true
+			}
+			r1 := genRow(t, &sc)
+			if len(known) > 0 && rapid.Bool().Draw(t, "knownrow") {
+				r1 = known[rapid.IntRange(0, len(known)-1).Draw(t, "known")] // a row written earlier: likely the visible one
+			}
+			if rapid.IntRange(0, 2).Draw(t, "zero1") == 0 {
+				r1 = zeroed(t, r1)
+			}
+			var r2 Row
+			switch rapid.IntRange(0, 5).Draw(t, "recreate") {
+			case 0, 1: // same indexed values as before the delete
+				r2 = r1
+				r2.P = int64(rapid.IntRange(0, 3).Draw(t, "p"))
+			case 2, 3: // zero value in at least one indexed field
+				r2 = zeroed(t, genRow(t, &sc))
+			default:
+				r2 = genRow(t, &sc)
+			}
 			r2.ID = r1.ID
-			sc.Ops = append(sc.Ops,
-				Op{Kind: "create", Tx: h, Rows: []Row{r1}},
-				Op{Kind: "delete", Tx: h, Keys: []int32{r1.ID}},
-				Op{Kind: "create", Tx: h, Rows: []Row{r2}})
-		case w < 43: // update by key
+			var seq []Op
+			if rapid.IntRange(0, 2).Draw(t, "setfirst") != 0 {
+				seq = append(seq, Op{Kind: "create", Tx: h, Rows: []Row{r1}})
+			}
+			seq = append(seq, Op{Kind: "delete", Tx: h, Keys: []int32{r1.ID}})
+			if rapid.IntRange(0, 3).Draw(t, "qbetween") == 0 {
+				seq = append(seq, Op{Kind: "query", Tx: h, F: genFilter(t, &sc, 1)})
+			}
+			switch rapid.IntRange(0, 7).Draw(t, "how") {
+			case 0: // update by key of a row deleted in this handle: not found, nothing written
+				up := Op{Kind: "update", Tx: h, Keys: []int32{r1.ID}}
+				genChange(t, &sc, &up)
+				seq = append(seq, up, Op{Kind: "create", Tx: h, Rows: []Row{r2}})
+			default:
+				seq = append(seq, Op{Kind: "create", Tx: h, Rows: []Row{r2}})
+			}
+			// look at the re-created row through every index right away, positively and negated
+			leaf := []*FNode{{K: "a", V: []string{r2.A}}, {K: "b", V: []string{r2.B}}, {K: "s", SV: []int64{r2.S}}}[rapid.IntRange(0, 2).Draw(t, "lookat")]
+			if rapid.Bool().Draw(t, "negated") {
+				leaf = &FNode{K: "not", Kids: []*FNode{leaf}}
+			}
+			seq = append(seq, Op{Kind: "query", Tx: h, F: leaf})
+			known = append(known, r2)
+			sc.Ops = append(sc.Ops, seq...)
+		case w < 45: // update by key
 			op := Op{Kind: "update", Tx: handle(true), Keys: genKeys(t, &sc, 1, 2)}
 			genChange(t, &sc, &op)
 			sc.Ops = append(sc.Ops, op)
-		case w < 49: // update where
+		case w < 50: // update where
 			op := Op{Kind: "updw", Tx: handle(true), F: genFilter(t, &sc, 2)}
 			genChange(t, &sc, &op)
 			sc.Ops = append(sc.Ops, op)
@@ -426,6 +486,7 @@ type model struct {
 	committed map[int32]Row
 	tx        [4]overlay // nil = slot closed
 	touched   [4]map[string]bool
+	gone      [4]map[int32]Row // row that was visible when the transaction staged its delete of the key
 }
 
 func (m *model) view(h int) map[int32]Row {
@@ -574,7 +635,7 @@ func keysOnly(n *FNode) bool {
 func (n *FNode) String() string {
 	switch n.K {
 	case "a", "b":
-		return fmt.Sprintf("%s in %v", n.K, n.V)
+		return fmt.Sprintf("%s in %q", n.K, n.V)
 	case "s":
 		return fmt.Sprintf("s in %v", n.SV)
 	case "keys":
@@ -990,16 +1051,16 @@ func (s *sut) checkGet(step int, when string, h int, idx string, v []string, sv 
 	got, err := s.getOn(tx, idx, v, sv)
 	if s.popFailed {
 		if !errors.Is(err, gorp.ErrIndexInvalid) {
-			return kit.Fail("get-after-failed-populate", "step %d%s: index %s Get(%s, %v%v) after a failed populate returned %v, %v instead of ErrIndexInvalid", step, when, idx, reader(h), v, sv, got, err)
+			return kit.Fail("get-after-failed-populate", "step %d%s: index %s Get(%s, %q%v) after a failed populate returned %v, %v instead of ErrIndexInvalid", step, when, idx, reader(h), v, sv, got, err)
 		}
 		return nil
 	}
 	if err != nil {
-		return kit.Fail("unexpected-error", "step %d%s: %s.Get(%s, %v%v): %v", step, when, idx, reader(h), v, sv, err)
+		return kit.Fail("unexpected-error", "step %d%s: %s.Get(%s, %q%v): %v", step, when, idx, reader(h), v, sv, err)
 	}
 	want := s.wantGet(s.m.view(h), idx, v, sv)
 	if k, dup := firstDup(got); dup {
-		return kit.Fail("get-duplicate", "step %d%s: index %s Get(%s, %v%v) returned key %d twice: %v", step, when, idx, reader(h), v, sv, k, got)
+		return kit.Fail("get-duplicate", "step %d%s: index %s Get(%s, %q%v) returned key %d twice: %v", step, when, idx, reader(h), v, sv, k, got)
 	}
 	if equalIDs(sorted(got), want) {
 		return nil
@@ -1021,7 +1082,7 @@ func (s *sut) checkGet(step int, when string, h int, idx string, v []string, sv 
 		_, live := s.m.committed[k]
 		detail += fmt.Sprintf(" key %d: committed row exists=%v, staged by %s;", k, live, s.whoStaged(h, k))
 	}
-	return kit.Fail(sig, "step %d%s: index %s Get(%s, %v%v) = %v, model %v (extra %v, missing %v;%s)",
+	return kit.Fail(sig, "step %d%s: index %s Get(%s, %q%v) = %v, model %v (extra %v, missing %v;%s)",
 		step, when, idx, reader(h), v, sv, sorted(got), want, extra, missing, detail)
 }
 
@@ -1235,8 +1296,35 @@ func (s *sut) noteSameRow(h int, k int32) {
 			}
 		}
 	}
-	if prev, ok := s.m.tx[h][k]; ok && prev == nil {
+}
+
+// noteSet classifies a row about to be written on handle h (before the model is updated).
+func (s *sut) noteSet(h int, r Row) {
+	zero := r.A == "" || r.B == "" || r.S == 0
+	if r.A == "" || r.B == "" {
+		s.rep.Class("zero-valued-lookup-field")
+	}
+	if r.S == 0 {
+		s.rep.Class("zero-valued-sorted-field")
+	}
+	if zero {
+		s.rep.Class("zero-valued-index-field")
+	}
+	if h == 0 {
+		return
+	}
+	if zero {
+		s.rep.Class("zero-valued-index-field-in-tx")
+	}
+	if prev, ok := s.m.tx[h][r.ID]; ok && prev == nil {
 		s.rep.Class("set-after-delete-in-tx")
+		s.rep.Class("delete-then-recreate-in-tx")
+		if zero {
+			s.rep.Class("recreate-zero-after-delete-in-tx")
+		}
+		if old, ok := s.m.gone[h][r.ID]; ok && (old.A == r.A || old.B == r.B || old.S == r.S) {
+			s.rep.Class("recreate-same-value-after-delete-in-tx")
+		}
 	}
 }
 
@@ -1313,6 +1401,7 @@ func execute(sc Script, rep *kit.Report) (ret error) {
 			s.txs[op.Tx] = s.db.OpenTx()
 			s.m.tx[op.Tx] = overlay{}
 			s.m.touched[op.Tx] = map[string]bool{}
+			s.m.gone[op.Tx] = map[int32]Row{}
 			n := 0
 			for h := 1; h <= 3; h++ {
 				if s.txs[h] != nil {
@@ -1380,6 +1469,7 @@ func execute(sc Script, rep *kit.Report) (ret error) {
 					}
 				}
 				s.noteSameRow(op.Tx, r.ID)
+				s.noteSet(op.Tx, r)
 				s.touch(op.Tx, r)
 				s.m.set(op.Tx, r)
 			}
@@ -1428,6 +1518,7 @@ func execute(sc Script, rep *kit.Report) (ret error) {
 				}
 				nw := changed(op, old)
 				s.noteSameRow(op.Tx, k)
+				s.noteSet(op.Tx, nw)
 				s.touch(op.Tx, old, nw)
 				if old.A != nw.A || old.B != nw.B || old.S != nw.S {
 					rep.Class("indexed-value-changed")
@@ -1470,6 +1561,9 @@ func execute(sc Script, rep *kit.Report) (ret error) {
 				}
 				s.noteSameRow(op.Tx, k)
 				s.touch(op.Tx, old)
+				if op.Tx != 0 {
+					s.m.gone[op.Tx][k] = old
+				}
 				s.m.del(op.Tx, k)
 			}
 			if op.Kind == "delw" && len(target) > 0 {
